@@ -203,7 +203,7 @@ def intToBytes (size : Nat) (x : Int) : List Byte :=
   toBE size (x % ((2 ^ (8 * size) : Nat) : Int)).toNat
 
 def inRange (size : Nat) (signed : Bool) (x : Int) : Bool :=
-  if signed then decide (-((2 ^ (8 * size - 1) : Nat) : Int) ≤ x) && decide (x < ((2 ^ (8 * size - 1) : Nat) : Int))
+  if signed then decide (0 < size) && decide (-((2 ^ (8 * size - 1) : Nat) : Int) ≤ x) && decide (x < ((2 ^ (8 * size - 1) : Nat) : Int))
   else decide (0 ≤ x) && decide (x < ((2 ^ (8 * size) : Nat) : Int))
 
 def Prim.ofBytes (p : Prim) (bs : List Byte) : Int := intOfBytes p.size p.signed bs
